@@ -47,3 +47,58 @@ def range_run(maxlen):
         return {"cases": ncases, "evaluations": total, "bad": bad, "detail": detail[:6000], "outcomes": outcomes, "sample": sample}
     finally:
         shutil.rmtree(d, ignore_errors=True)
+
+
+def key_run(maxsegs):
+    d = vlib.scratch("key-")
+    try:
+        consts = dict(Methods={"GET", "HEAD"}, Hosts={"h.example", "H.EXAMPLE", "other.example"},
+                      Segs={"a", "b", ".", "..", "", "a|b", "a%7Cb"}, LastSegs={"a", "b", "a|b", "a%7Cb"},
+                      Queries={"NONE", "c", "b|c", "x=1&y=2"}, MaxSegs=maxsegs,
+                      CaseFile=os.path.join(d, "cases.ndjson"), ResultFile=os.path.join(d, "res.ndjson"))
+        ncases, r = _gen_and_run("CacheKeyGen", "CacheKeyJudge", consts, "key", d)
+        m = re.search(r'<<\s*"KEY-RESULT",\s*(\d+),\s*(\d+),\s*(\d+),\s*(\d+),(.*)>>\s*\n', r["out"], re.S)
+        if not m:
+            raise vlib.Inconclusive("key judge gave no result: %s" % r["out"][-2000:])
+        sample = [json.loads(l) for i, l in enumerate(open(os.path.join(d, "cases.ndjson"))) if i % 397 == 0][:10]
+        return {"cases": ncases, "hexes": int(m.group(2)), "collisions": int(m.group(3)), "splits": int(m.group(4)),
+                "detail": " ".join(m.group(5).split())[:3000], "sample": sample}
+    finally:
+        shutil.rmtree(d, ignore_errors=True)
+
+
+SIZE_VALUES = {0, 1, 512, 1023, 1024, 1025, 1536, 2047, 2048, 1048575, 1048576, 1048577, 1572864, 5242880, 5242881,
+               1073741823, 1073741824, 1073741825, 1610612736, 2147483647}
+
+
+def size_run(maxlen):
+    d = vlib.scratch("size-")
+    try:
+        consts = dict(Toks={"0", "1", "5", "9", "B", "K", "M", "G", "T", "k", "x", "-", "SP", "B20"}, MaxLen=maxlen,
+                      Values=SIZE_VALUES, CaseFile=os.path.join(d, "cases.ndjson"), ResultFile=os.path.join(d, "res.ndjson"))
+        ncases, r = _gen_and_run("ByteSizeGen", "ByteSizeJudge", consts, "bytesize", d)
+        m = re.search(r'<<\s*"SIZE-RESULT",\s*(\d+),\s*(\d+),\s*(\d+),(.*)>>\s*\n', r["out"], re.S)
+        if not m:
+            raise vlib.Inconclusive("size judge gave no result: %s" % r["out"][-2000:])
+        sample = [json.loads(l) for i, l in enumerate(open(os.path.join(d, "res.ndjson"))) if i % 4001 == 0][:10]
+        return {"cases": ncases, "bad_strings": int(m.group(2)), "bad_values": int(m.group(3)),
+                "detail": " ".join(m.group(4).split())[:3000], "sample": sample}
+    finally:
+        shutil.rmtree(d, ignore_errors=True)
+
+
+def parser_run(mode, cc_maxlen=3):
+    d = vlib.scratch("inp-")
+    try:
+        consts = dict(CCToks={"max-age=", "0", "9", "B20", "-", "no-store", "No-Cache", ",", "SP", "=", "private", "x", ";", "max-age"},
+                      CCMaxLen=cc_maxlen, ExpForms="<- ExpFormsDef", PhcFields="<- PhcFieldsDef", Mode=mode,
+                      CaseFile=os.path.join(d, "cases.ndjson"), ResultFile=os.path.join(d, "res.ndjson"))
+        ncases, r = _gen_and_run("InputsGen", "InputsJudge", consts, mode, d)
+        m = re.search(r'<<\s*"INPUT-RESULT",\s*(\d+),\s*(\d+),\s*(\d+),\s*(\d+),(.*)>>\s*\n', r["out"], re.S)
+        if not m:
+            raise vlib.Inconclusive("%s judge gave no result: %s" % (mode, r["out"][-2000:]))
+        sample = [json.loads(l) for i, l in enumerate(open(os.path.join(d, "cases.ndjson"))) if i % 997 == 0][:8]
+        return {"cases": ncases, "panics": int(m.group(2)), "valid_refused": int(m.group(3)), "invalid_accepted": int(m.group(4)),
+                "detail": " ".join(m.group(5).split())[:3000], "sample": sample}
+    finally:
+        shutil.rmtree(d, ignore_errors=True)
